@@ -82,14 +82,18 @@ func checkC13Seg(c c13Seg) *ev.Failure {
 			return ev.Failf("seg/union", "%+v: union ends at %d, want %d", c, expectStart, c.End)
 		}
 		// indexes outside yield no segment
-		for d := 1; d <= 2; d++ {
-			if first-d >= 0 {
-				if r := s.Range(first - d); r != nil {
-					return ev.Failf("seg/outside-below", "%+v: Range(%d)=%s below first index %d", c, first-d, r, first)
-				}
+		for d := 1; d <= 8; d++ {
+			// (negative indexes included: they are outside every range)
+			if r := s.Range(first - d); r != nil {
+				return ev.Failf("seg/outside-below", "%+v: Range(%d)=%s below first index %d", c, first-d, r, first)
 			}
 			if r := s.Range(last + d); r != nil {
 				return ev.Failf("seg/outside-above", "%+v: Range(%d)=%s above last index %d", c, last+d, r, last)
+			}
+		}
+		for _, idx := range []int{-1, -2, -1 << 31, -1 << 62} {
+			if r := s.Range(idx); r != nil {
+				return ev.Failf("seg/outside-below", "%+v: Range(%d)=%s for a negative index", c, idx, r)
 			}
 		}
 		// index lookup designates the containing segment
